@@ -39,6 +39,11 @@ THEOREMS = [
         "map_undefined_iff", "sort_perm", "sort_sorted", "sort_stable", "sort_idem", "tp_le_gt_of_one_to_one",
         "tp_list_eq_cumsum", "ignored_counts_as_rank",
     ]
+] + [
+    # composition with the matcher model (PEval/Properties/Pipeline.lean): the one-to-one hypothesis of the bounds is
+    # discharged by C01's theorems and inherited by every divide_objects bucket, for every frame of the pipeline
+    "PEval.PipelineProps." + t
+    for t in ["pipeline_ap_in_unit", "pipeline_frameMap_in_unit", "pipeline_aph_le_ap", "gt_ids_distinct_of_set"]
 ]
 TRUSTED = [
     "numpy cumsum / float division (compared with exact rationals within 1e-9)",
